@@ -68,4 +68,30 @@ SYMS = [
         [("p", PD), ("q", PD), ("step", PD)], ret="difference_type",
         subst=[(r"it\._p\[Dim\]", "q"), (r"_p\[Dim\]", "p"), (r"_step\[Dim\]", "step")]),
 ]
+# ---- deepening round: raw pointers (pixel_iterator.hpp) and planar_pixel_iterator (own operator[], operator<, distance_to)
+PIX = "boost/gil/pixel_iterator.hpp"
+PLN = "boost/gil/planar_pixel_iterator.hpp"
+CAST = [(r"\(P\*\)", ""), (r"\((?:unsigned )?char\s*\*\)", ""), (r"gil_reinterpret_cast_c<unsigned char const\*>", "")]
+SYMS += [
+    Sym(PIX, r"inline P\* memunit_advanced\(const P\* p, std::ptrdiff_t diff\)", "ptr_memunit_advanced", [("p", PD), ("diff", PD)], ret=PD, subst=CAST,
+        doc="memunit_advanced(P const*, diff): byte address of the advanced pointer"),
+    Sym(PIX, r"inline void memunit_advance\(P\* &p, std::ptrdiff_t diff\)", "ptr_memunit_advance", [("p", PD), ("diff", PD)], outputs=["p"], subst=CAST,
+        doc="memunit_advance(P*&, diff)"),
+    Sym(PIX, r"inline std::ptrdiff_t memunit_distance\(P const\* p1, P const\* p2\)", "ptr_memunit_distance", [("p1", PD), ("p2", PD)], ret=PD, subst=CAST,
+        doc="memunit_distance(P const* p1, P const* p2) in bytes"),
+    # planar_pixel_iterator::operator[](d) = memunit_advanced_ref(*this, <bytes>): every plane pointer is advanced by that many bytes
+    Sym(PLN, r"reference operator\[\]\(difference_type d\)\s+const \{ return memunit_advanced_ref\(\*this,(.*?)\);\s*\}", "planar_index_bytes",
+        [("d", "difference_type"), ("chan_size", "std::size_t")], ret=PD, expr=True, subst=[(r"sizeof\(channel_t\)", "chan_size")],
+        doc="planar_pixel_iterator::operator[](d): the byte offset handed to memunit_advanced_ref (applied to every plane pointer)"),
+    # distance_to / operator< / equal look at plane 0 only; it0 / this0 = positions of the channel-0 pointers counted in channels
+    Sym(PLN, r"std::ptrdiff_t distance_to\(const planar_pixel_iterator& it\) const", "planar_distance_to", [("it0", PD), ("this0", PD)], ret=PD,
+        subst=[(r"gil::at_c<0>\(it\)", "it0"), (r"gil::at_c<0>\(\*this\)", "this0")],
+        doc="planar_pixel_iterator::distance_to(it): pointer difference of the channel-0 pointers (in channels)"),
+    Sym(PLN, r"bool operator< \(const planar_pixel_iterator& ptr\)   const", "planar_lt", [("this0", PD), ("ptr0", PD)], ret="bool",
+        subst=[(r"gil::at_c<0>\(ptr\)", "ptr0"), (r"gil::at_c<0>\(\*this\)", "this0")],
+        doc="planar_pixel_iterator::operator<: compares the channel-0 pointers"),
+    Sym(PLN, r"bool equal\(const planar_pixel_iterator& it\) const", "planar_equal", [("this0", PD), ("it0", PD)], ret="bool",
+        subst=[(r"gil::at_c<0>\(it\)", "it0"), (r"gil::at_c<0>\(\*this\)", "this0")],
+        doc="planar_pixel_iterator::equal: compares the channel-0 pointers"),
+]
 NAMESPACE = "GilVerif.Gen.C03"
